@@ -99,6 +99,54 @@ CLAIMED = {
         design_ref="DESIGN.md section 5, C17",
         technique="Coq proof (27-image sufficiency by ring identities + lia; membership characterisation by induction) with model/implementation correspondence against the regenerated radius table",
         note=NOTE_COMMON + " Table translator tools/gen_tables.py (fail-closed). Not proved: the output list has no duplicates / is sorted (compared exactly against the implementation instead)."),
+    "C04": dict(
+        text="Theorems on the replacement model, for ANY list of selected matches: a successful replacement reports the number of selected "
+             "matches, deletes exactly the union of the matched atoms not common to both patterns (each once), and positions / charges / groups "
+             "are the original arrays followed by the not-common replacement atoms per match in order, minus the deleted ones; type tables "
+             "are the originals followed by the pattern's; an empty replacement deletes exactly the matched atoms; atoms common to both patterns "
+             "stay (self-replacement changes no position, charge or group). The selection itself (nearest-integer fraction, only found "
+             "matches), element/label/mass retention of bystanders and 'inputs unmodified' are evaluated on every run on the implementation's "
+             "output; the full result state is compared with the model.",
+        design_ref="DESIGN.md section 5, C04",
+        technique="Coq proof about the bookkeeping model (matches as parameters) with model/implementation correspondence of the full result state; selected matches recovered through the public API by re-seeding",
+        note=NOTE_COMMON + " Tested, not proved: inputs unmodified (Python mutation); rounding of fraction x matches is checked per run in Coq on the observed counts."),
+    "C05": dict(
+        text="Theorem C05_frame: the exact placement R(r - s0) + pos0 differs from the image of the replacement coordinate under the rigid motion "
+             "certified by C01 by exactly the residual of the first matched atom, which C01 bounds by the tolerance; the rotation is linear and "
+             "proper (ring identities). On every run, for every inserted atom, the implementation's coordinate is compared in exact integer "
+             "arithmetic with the exact placement modulo the lattice (1.9e-6 A), the matched atoms are re-checked against the returned rotation, "
+             "and the atom must lie inside the cell (orthorhombic, triclinic of either tilt sign, upper-triangular, rotated). Joint rigid "
+             "motion of both patterns is validated per run for patterns with a unique pose (partial).",
+        design_ref="DESIGN.md section 5, C05",
+        technique="Coq proof (ring identities for the placement frame) plus exact per-atom placement/wrapping check of the implementation's output inside Coq",
+        note=NOTE_COMMON + " Partial: wrapping into the cell and joint-motion invariance are checked per run, not proved."),
+    "C06": dict(
+        text="Theorems: per selected match the rows of every term kind are exactly [old rows not on the same atoms forwards/backwards] ++ "
+             "[pattern rows re-targeted, type + offset, extra fields matched by label]; with extend_types' offsets new ids resolve to the "
+             "pattern's coefficient text and atom type ids to the pattern's label/element/mass; the final deletion keeps exactly the terms "
+             "touching no removed atom, re-indexed. PARTIAL: the composition over all matches is evaluated per run (resolved coefficient "
+             "text against the statement, full state against the model), incl. repeated replacements. Known finding D10 (pair coefficients "
+             "in the CIF workflow) is proved as a refutation witness and reported as KNOWN-FINDING.",
+        design_ref="DESIGN.md section 5, C06",
+        technique="Coq proof of the per-match term bookkeeping and type resolution; composed statement by model/implementation correspondence with resolved coefficient text (partial); refutation witness for the known finding",
+        note=NOTE_COMMON + " Known finding D10 listed in known_findings.jsonl."),
+    "C07": dict(
+        text="Theorem C07_refuses_iff (any matches): the dedicated overlap error is the outcome exactly when the replacement is non-empty, the "
+             "ignore flag is off and some structure atom lies in the removal sets of two selected matches (removal set = matched atoms not "
+             "common to both patterns); an empty replacement never raises and deletes each listed atom once; whenever a structure is returned "
+             "the deletion list has no duplicates. Tied to the code on clusters whose occurrences share atoms in every combination.",
+        design_ref="DESIGN.md section 5, C07",
+        technique="Coq proof (characterisation of the overlap error by induction over the selected matches) with model/implementation correspondence on overlapping clusters",
+        note=NOTE_COMMON),
+    "C08": dict(
+        text="Theorem: replacing a pattern (no coincident same-element atoms) by itself with replace_all off deletes and inserts nothing and "
+             "leaves position, charge and group of every atom unchanged, for any matches (the identity map is proved to be the identity; the "
+             "hypothesis is shown necessary). PARTIAL: element identity uses C01 (matched elements equal the pattern's); the substitution "
+             "round trip A->B->A and 'a second search finds none' depend on search completeness and are validated per run on single-site and "
+             "multi-atom boundary-crossing patterns.",
+        design_ref="DESIGN.md section 5, C08",
+        technique="Coq proof of the self-replacement no-op on the bookkeeping model; round trips validated by metamorphic runs (partial)",
+        note=NOTE_COMMON + " Partial: reversibility clause validated per run."),
 }
 
 PENDING_REASON = "no check registered yet: the Coq model and correspondence for this property are still being built (see DESIGN.md section 7 work order); nothing is claimed"
